@@ -393,8 +393,14 @@ def compute_gradient_and_dynamics(
         current_node, current_edges = _apply_system_superoperator(
             current_node, current_edges, second_half_prop.T)
 
-        current_node, current_edges = _apply_pt_mpos(
-            current_node, current_edges, pt_mpos)
+        # the adjoint of applying the MPOs of several environments one after
+        # the other applies them in reverse order
+        for i in reversed(range(len(pt_mpos))):
+            single_mpo = [None] * len(pt_mpos)
+            single_mpo[i] = pt_mpos[i]
+            current_node, current_edges = _apply_pt_mpos(
+                current_node, current_edges, single_mpo)
+        current_node.reorder_edges(current_edges)
 
         current_node, current_edges = _apply_system_superoperator(
             current_node, current_edges, first_half_prop.T)
